@@ -199,12 +199,18 @@ func c01HookOrder(c *Ctx) {
 		key := c.short(lit.String()) + " › hook wrapper"
 		uncond := len(inc) == 1 && inc[0].Block() == lit.Blocks[0]
 		c.Check(uncond, "C01.b-count-once", key+" › count", lit.Pos(), "synced count incremented exactly once, unconditionally, per hook invocation", "synced count is not incremented exactly once per reported block")
+		// the counter accumulates over the whole sync: apart from the increment nothing writes it (a per-segment
+		// reset would make the reported count that of the last segment only)
+		if len(inc) == 1 {
+			others := counterOtherWrites(c, inc[0])
+			c.Check(len(others) == 0, "C01.b-count-once", key+" › counter only incremented", inc[0].Pos(), "the synced-block counter is written only by its increment (and its zero initialisation)", "the synced-block counter is also written at "+strings.Join(others, ", ")+": the count reported for a sync is not the number of blocks handed to the hook")
+		}
 		for _, cs := range calls {
 			same := len(cs.X.Args) >= 3 && cs.X.Args[1].V == ssa.Value(lit.Params[0]) && cs.X.Args[2].V == ssa.Value(lit.Params[1])
 			c.Check(same, "C01.b-count-once", key+" › passes publisher and CID on", cs.In.Pos(), "user hook receives the wrapper's own (peer, CID)", "user hook is called with a different peer/CID than the block reported")
 		}
 	}
-	c.Floor("C01.b-count-once", 2)
+	c.Floor("C01.b-count-once", 3)
 }
 
 // (c)
@@ -907,4 +913,108 @@ func c01StockHookAndVariants(c *Ctx) {
 		}
 	}
 	c.Floor("C01.h-all-links-unsegmented", 2)
+}
+
+// counterOtherWrites: positions of the writes, other than inc itself and
+// zero-initialisation at allocation, to the cell that inc increments: a local
+// (possibly captured) variable, or a struct field (then: all stores to that
+// field in the package).
+func counterOtherWrites(c *Ctx, inc *ssa.Store) []string {
+	var out []string
+	addr := inc.Addr
+	// captured variable: resolve the free variable to the parent's cell
+	if fv, ok := addr.(*ssa.FreeVar); ok {
+		if mc := c.xb.makeClosureOf(fv.Parent()); mc != nil {
+			for i, v := range fv.Parent().FreeVars {
+				if v == fv && i < len(mc.Bindings) {
+					addr = mc.Bindings[i]
+				}
+			}
+		}
+	}
+	switch a := addr.(type) {
+	case *ssa.Alloc:
+		var visit func(v ssa.Value, seen map[ssa.Value]bool)
+		visit = func(v ssa.Value, seen map[ssa.Value]bool) {
+			if seen[v] {
+				return
+			}
+			seen[v] = true
+			refs := v.Referrers()
+			if refs == nil {
+				return
+			}
+			for _, r := range *refs {
+				switch r := r.(type) {
+				case *ssa.Store:
+					if r.Addr == v && r != inc {
+						if k, ok := r.Val.(*ssa.Const); ok && k.Value != nil && k.Value.ExactString() == "0" && r.Block() == r.Parent().Blocks[0] {
+							continue
+						}
+						out = append(out, c.pos(r.Pos()))
+					}
+				case *ssa.MakeClosure:
+					for i, b := range r.Bindings {
+						if b == v {
+							if fn, ok := r.Fn.(*ssa.Function); ok && i < len(fn.FreeVars) {
+								visit(fn.FreeVars[i], seen)
+							}
+						}
+					}
+				}
+			}
+		}
+		visit(a, map[ssa.Value]bool{})
+	case *ssa.FieldAddr:
+		fld := deref(a.X.Type()).Underlying().(*types.Struct).Field(a.Field)
+		for _, pf := range c.Funcs(dagsyncPkg) {
+			for _, f := range allFuncs(pf.SSA) {
+				instrs(f, func(in ssa.Instruction) {
+					st, ok := in.(*ssa.Store)
+					if !ok || st == inc {
+						return
+					}
+					if fa, ok := st.Addr.(*ssa.FieldAddr); ok {
+						if deref(fa.X.Type()).Underlying().(*types.Struct).Field(fa.Field) == fld {
+							// initialisation inside the composite literal that creates the value is fine
+							if _, fresh := fa.X.(*ssa.Alloc); fresh && st.Block() == fa.X.(*ssa.Alloc).Block() {
+								if k, ok := st.Val.(*ssa.Const); ok && k.Value != nil && k.Value.ExactString() == "0" {
+									return
+								}
+							}
+							out = append(out, c.pos(st.Pos()))
+						}
+					}
+				})
+			}
+		}
+	default:
+		out = append(out, "an unrecognised counter cell")
+	}
+	return out
+}
+
+// hookCounterInc: the increment of the synced-block counter in the subscriber-side hook wrapper.
+func hookCounterInc(c *Ctx) *ssa.Store {
+	h := c15HandleFn(c)
+	if h == nil {
+		return nil
+	}
+	for _, lit := range h.AnonFuncs {
+		if len(c.Calls(lit, Op("dyncall", "", Any()))) == 0 || len(lit.Params) < 2 {
+			continue
+		}
+		var inc []*ssa.Store
+		instrs(lit, func(in ssa.Instruction) {
+			if st, ok := in.(*ssa.Store); ok {
+				if _, m := Match(Bin("+", Any(), Const("1")), c.E(st.Val)); m {
+					inc = append(inc, st)
+				}
+			}
+		})
+		if len(inc) == 1 {
+			return inc[0]
+		}
+	}
+	return nil
 }
